@@ -29,6 +29,10 @@ pub struct Case {
     pub spec: Spec,
     pub worlds: Vec<World>,
     pub origin: String,
+    /// != 0: before running, a pre-existing actions file (a fresh generation
+    /// with a seeded third of its items deleted) is attached to every world
+    /// (not serialised: the attached bytes are part of the worlds)
+    pub existing_seed: u64,
 }
 
 impl Case {
@@ -42,8 +46,35 @@ impl Case {
             spec: Spec::from_json(v.get("spec")?)?,
             worlds: v.get("worlds")?.as_array()?.iter().map(World::from_json).collect::<Option<Vec<_>>>()?,
             origin: v.get("origin").and_then(|o| o.as_str()).unwrap_or("").to_string(),
+            existing_seed: 0,
         })
     }
+}
+
+/// User state for the worlds of a case: the actions file of a fresh
+/// generation with a seeded third of the generated items deleted.  Same bytes
+/// in every world; what differs between the worlds is everything else
+/// (timestamps included).
+pub fn attach_existing(env: &Env, case: &mut Case, st: &mut Stats) {
+    let m = match crate::c18::model(env, &case.grammar, &case.spec) {
+        Some(m) => m,
+        None => return,
+    };
+    st.compiles += 1;
+    let mut rng = Rng::new(case.existing_seed);
+    let mut items = vec![];
+    for i in m.u.iter() {
+        let generated = !matches!(i, syn::Item::Use(_)) && crate::c18::ns_name(i).map(|n| !["Input", "Ctx", "Token"].contains(&n.1.as_str())).unwrap_or(false);
+        if generated && rng.chance(1, 3) {
+            continue;
+        }
+        items.push(i.clone());
+    }
+    let text = prettyplease::unparse(&syn::File { shebang: None, attrs: vec![], items });
+    for w in case.worlds.iter_mut() {
+        w.existing_actions = Some(text.clone().into_bytes());
+    }
+    bump(&mut st.world_dims, "cases_with_existing_actions_file");
 }
 
 /// A seeded world.  `allow_rcomp`: include the spawned-binary vehicles.
@@ -66,7 +97,7 @@ pub fn random_world(rng: &mut Rng, ctx: &Ctx, spec: &Spec, allow_rcomp: bool) ->
         7 | 8 => Vehicle::Rcomp,
         _ => Vehicle::RcompDir,
     };
-    w.env_defaults = spec.out_dirs && rng.chance(1, 3);
+    w.env_defaults = spec.out_dirs && spec.out_only == 0 && rng.chance(1, 3);
     match w.vehicle {
         Vehicle::Thread => {
             let n = rng.usize(4);
@@ -95,6 +126,7 @@ pub fn random_world(rng: &mut Rng, ctx: &Ctx, spec: &Spec, allow_rcomp: bool) ->
             w.faults.push(Fault { event, kind: F_SHORT, arg: 1 + rng.below(64) as i32 });
         }
     }
+    w.mtime_mode = *rng.pick(&[0u8, 0, 1, 2, 3]);
     w
 }
 
@@ -124,8 +156,8 @@ fn spec_for(rng: &mut Rng, family: u64) -> Spec {
 
 /// Every option of `rcomp --help` that maps to a setting, as a single toggle
 /// away from the default (flag sweep, DESIGN.md 4/C17 oracle 2).
-pub const TOGGLES: [&str; 24] = [
-    "force-off", "dot", "noactions", "trace", "out-dirs", "prefer-shifts", "no-shifts-over-empty", "table-lalr", "table-lalr-rn",
+pub const TOGGLES: [&str; 26] = [
+    "force-off", "dot", "noactions", "trace", "out-dirs", "out-only-o", "out-only-a", "prefer-shifts", "no-shifts-over-empty", "table-lalr", "table-lalr-rn",
     "glr", "arrays", "lexer-custom", "input-type-bytes", "builder-generic", "builder-custom", "builder-loc-info",
     "most-specific-off", "longest-match-off", "glr-grammar-order-on", "fancy-regex", "partial-parse", "no-skip-ws", "print-table",
     "glr-arrays-loc-info",
@@ -138,11 +170,19 @@ pub fn apply_toggle(s: &mut Spec, t: &str) {
         "noactions" => s.actions = false,
         "trace" => s.trace = true,
         "out-dirs" => s.out_dirs = true,
+        "out-only-o" => {
+            s.out_dirs = true;
+            s.out_only = 1;
+        }
+        "out-only-a" => {
+            s.out_dirs = true;
+            s.out_only = 2;
+        }
         "prefer-shifts" => s.prefer_shifts = true,
         "no-shifts-over-empty" => s.prefer_shifts_over_empty = false,
         "table-lalr" => s.table = 0,
         "table-lalr-rn" => s.table = 2,
-        "glr" => *s = Spec { out_dirs: s.out_dirs, ..Spec::glr_default() },
+        "glr" => *s = Spec { out_dirs: s.out_dirs, out_only: s.out_only, ..Spec::glr_default() },
         "arrays" => s.arrays = true,
         "lexer-custom" => s.custom_lexer = true,
         "input-type-bytes" => {
@@ -222,7 +262,30 @@ pub fn gen_case(ctx: &Ctx, stream: u64, idx: u64, nworlds: usize, allow_rcomp: b
         let mut w = World::reference();
         w.vehicle = if idx % 5 == 4 { Vehicle::RcompDir } else { Vehicle::Rcomp };
         w.hash_seed = sub_seed(ctx.seed, 17_2, idx) | 1;
-        return Case { grammar: g, spec, worlds: vec![World::reference(), w], origin: format!("flag sweep: {label}") };
+        return Case { grammar: g, spec, worlds: vec![World::reference(), w], origin: format!("flag sweep: {label}"), existing_seed: 0 };
+    }
+    if stream == 4 {
+        // user state + timestamps: force off, an incomplete actions file in
+        // place, worlds that differ in the age of the files (and the rest)
+        let ss = sub_seed(ctx.seed, 17_4, idx);
+        let mut rng = Rng::new(ss);
+        let n = ctx.corpus.len() as u64;
+        let g = ctx.corpus[(idx % n) as usize].clone();
+        let mut spec = if (idx / n) % 2 == 0 { Spec::lr_default() } else { Spec::glr_default() };
+        spec.force = false;
+        spec.loc_info = rng.chance(1, 3);
+        // the actions file stays next to the grammar: the one place where
+        // every vehicle and path form looks for it
+        spec.out_dirs = rng.chance(1, 3);
+        spec.out_only = 1;
+        let mut worlds = vec![World::reference()];
+        for k in 0..nworlds {
+            let mut w = random_world(&mut rng, ctx, &spec, allow_rcomp);
+            w.mtime_mode = 1 + (k % 3) as u8;
+            w.stale = 0;
+            worlds.push(w);
+        }
+        return Case { grammar: g, spec, worlds, origin: format!("existing actions file + timestamps idx={idx} sub_seed={ss}"), existing_seed: rng.next_u64() | 1 };
     }
     let ss = sub_seed(ctx.seed, stream, idx);
     let mut rng = Rng::new(ss);
@@ -245,7 +308,8 @@ pub fn gen_case(ctx: &Ctx, stream: u64, idx: u64, nworlds: usize, allow_rcomp: b
     for _ in 0..nworlds {
         worlds.push(random_world(&mut rng, ctx, &spec, allow_rcomp));
     }
-    Case { grammar, spec, worlds, origin }
+    let existing_seed = if !spec.force && spec.actions && spec.builder == 0 && !spec.actions_in_out() && rng.chance(1, 2) { rng.next_u64() | 1 } else { 0 };
+    Case { grammar, spec, worlds, origin, existing_seed }
 }
 
 #[derive(Default)]
@@ -472,7 +536,8 @@ pub fn check_case(env: &Env, case: &Case, idx: u64, st: &mut Stats) -> Vec<Viola
         for (dim, on) in [
             ("tty", w.tty), ("env_defaults", w.env_defaults), ("cwd_other", w.cwd != 0), ("rel_path", w.rel_path),
             ("stale", w.stale != 0), ("neighbours", !w.neighbours.is_empty()), ("trace_env", w.env.iter().any(|e| e.0 == "RUSTEMO_TRACE")),
-            ("proj_renamed", w.proj_name != "proj"),
+            ("proj_renamed", w.proj_name != "proj"), ("grammar_years_older_than_outputs", w.mtime_mode == 1), ("outputs_years_older_than_grammar", w.mtime_mode == 2),
+            ("all_files_same_second", w.mtime_mode == 3), ("existing_actions_file", w.existing_actions.is_some() && !case.spec.force),
         ] {
             if on {
                 bump(&mut st.world_dims, dim);
@@ -489,7 +554,7 @@ pub fn check_case(env: &Env, case: &Case, idx: u64, st: &mut Stats) -> Vec<Viola
         }
         compared_worlds += 1;
         if let Some(d) = compare(case, &reference, &o) {
-            let two = Case { grammar: case.grammar.clone(), spec: case.spec.clone(), worlds: vec![case.worlds[0].clone(), w.clone()], origin: case.origin.clone() };
+            let two = Case { grammar: case.grammar.clone(), spec: case.spec.clone(), worlds: vec![case.worlds[0].clone(), w.clone()], origin: case.origin.clone(), existing_seed: 0 };
             out.push(Violation {
                 property: "C17".into(),
                 key: violation_key(&two, &d.class),
@@ -634,7 +699,10 @@ pub fn work(env: &Env, ctx: &Ctx, w: usize, nw: usize, plan: &[(u64, u64, usize,
     for &(stream, count, nworlds, allow_rcomp) in plan {
         let mut idx = w as u64;
         while idx < count {
-            let case = gen_case(ctx, stream, idx, nworlds, allow_rcomp);
+            let mut case = gen_case(ctx, stream, idx, nworlds, allow_rcomp);
+            if case.existing_seed != 0 {
+                attach_existing(env, &mut case, &mut st);
+            }
             for v in check_case(env, &case, stream * 1_000_000_000 + idx, &mut st) {
                 if viol.len() < 40 {
                     viol.push(v.to_json());
